@@ -153,6 +153,52 @@ def _is_one(t):
         return False
 
 
+def axis_correspondence(tier, seed, work):
+    """the index axes of TNMR files against the Lean `ImportAxis.indexAxis` (one coordinate per stored point, k·dwell): files with
+    every extent 2..9 and dwell times that are whole numbers of nanoseconds are imported by the real importer, the coordinates
+    are read in nanoseconds (rounded to the nearest integer — the float product is L0) and compared with the model's integers"""
+    import numpy as np, struct, warnings
+    from common import run_model
+    from formats import KITS
+    from dnplab.io.tnmr import import_tnmr
+    rng = random.Random(seed * 7919 + 616)
+    kit = KITS["tnmr"]
+    mism, fails, n_eval = [], [], 0
+    cases = []
+    dws = [d for d in kit.DWELLS] + [round(rng.randint(1, 999) * 10 ** rng.choice([-9, -8, -6, -4]), 9) for _ in range(4 if tier == "quick" else 20)]
+    for n in range(2, 10):
+        for dw in dws:
+            cases.append((n, rng.choice([1, 2, 3]), dw, rng.choice(dws)))
+    jobs = [{"op": "indexaxis", "n": n, "start": 0, "step": int(round(dw / 1e-9))} for n, _, dw, _ in cases] + \
+           [{"op": "indexaxis", "n": m, "start": 0, "step": int(round(dw1 / 1e-9))} for _, m, _, dw1 in cases]
+    outs, _ = run_model(jobs)
+    for i, (n, m, dw, dw1) in enumerate(cases):
+        c = {"ext": [n, m, 1, 1], "trailer": 0, "dwell": [dw, dw1, 0.0, 0.0]}
+        d = os.path.join(work, "axis_%d" % i); os.makedirs(d, exist_ok=True)
+        body = bytes(20 + 1024 + 12) + np.arange(2 * n * m, dtype="<f4").tobytes()
+        path = kit.write(c, d, body)
+        n_eval += 1
+        try:
+            with warnings.catch_warnings():
+                warnings.simplefilter("ignore")
+                r = import_tnmr(path, squeeze=False)
+            got = {dim: [str(int(v)) for v in np.rint(np.asarray(r.coords[dim], dtype=float) / 1e-9)] for dim in ("t2", "t1")}
+        except Exception as e:  # noqa: BLE001
+            got = {"t2": ["raise:" + type(e).__name__], "t1": []}
+        want = {"t2": outs[i].get("axis"), "t1": outs[len(cases) + i].get("axis")}
+        for dim in ("t2", "t1"):
+            if got[dim] != want[dim]:
+                key = "C06:tnmr:index-axis:" + ("length" if len(got[dim]) != len(want[dim] or []) else "coordinates")
+                fails.append({"key": key, "clause": key, "ops": [{"kit": "tnmr", "extent": [n, m], "dwell": [dw, dw1], "dim": dim, "imported_ns": got[dim], "model_ns": want[dim]}]})
+                mism.append({"diffs": ["axis:" + dim], "ops": [{"kit": "tnmr", "extent": [n, m], "dwell": [dw, dw1]}], "stream": -1, "explained_by_known": True})
+                break
+    seen, uniq = set(), []
+    for f in fails:
+        if f["key"] not in seen:
+            seen.add(f["key"]); uniq.append(f)
+    return mism[:3], uniq, n_eval
+
+
 def run(tier, seed, escalate=False):
     if escalate:
         tier = "thorough"
@@ -182,6 +228,8 @@ def run(tier, seed, escalate=False):
         # VnmrJ parameter files through the Lean writer / reader and array_coords
         pm, pf, pn = procpar_correspondence(tier, seed, work)
         mism += pm; fails += pf; dist["procpar_files"] = pn
+        am, af, an = axis_correspondence(tier, seed, work)
+        mism += am; fails += af; dist["tnmr_index_axis_files"] = an
         # every shipped sample imports and is consistent
         n_ship = 0
         for fmt, rel in SHIPPED:
